@@ -108,6 +108,11 @@ def run(ctx):
         steps.append('R%d' % left)
         fs_ = rng.choice(['', '', 'delta:dist=%d+' % rng.choice([1, 2, 4, 255, 256, rng.randrange(1, 257)])]) + 'lzma2:dict=%s,lc=%d,lp=%d,pb=%d,mf=%s' % (rng.choice(['4KiB', '64KiB', '1MiB', '12KiB']), rng.randrange(4), 0, rng.randrange(5), rng.choice(['hc4', 'bt4']))
         xl.append('flush 4 %d %d %s %s %s' % (rng.choice([0, 1, 4, 10]) << 8, rng.randrange(1 << 20), fs_, ';'.join(steps), d.hex() or '-')); xm.append((d, fs_ + ' ' + ';'.join(steps)))
+    # SHA-256 Check over every length residue modulo the 64-byte hash block (padding boundaries at 55/56 and 63/64), one and two Blocks
+    for n in range(0, 131):
+        d = bytes(rng.getrandbits(8) for _ in range(n)); k = rng.randrange(0, n + 1)
+        st_ = 'R%d' % n if n % 3 else 'F%d;R%d' % (k, n - k)
+        xl.append('flush 4 %d %d lzma2:dict=4KiB,lc=3,lp=0,pb=2,mf=hc4 %s %s' % (10 << 8, rng.randrange(1 << 20), st_, d.hex() or '-')); xm.append((d, 'sha256 length sweep ' + st_))
     xo, xf = run_lines(fl, xl)
     for f in xf: ctx.violation('encoder crashed in a flush history', {'line': (f[0] or '')[:20000], 'stderr': f[1], 'kind': 'crash'})
     xt, xtm = [], []
